@@ -567,6 +567,32 @@ def rewrite_for_header(pat, expr, idx, spec):
             raise ExtractError(f"R2: unsupported zip pattern {pat!r}")
         return (f"let mut {idx}: usize = 0;", f"{idx} < {s1}.len() && {idx} < {s2}.len()",
                 (bind(pm.group(1), s1) + ' ' + bind(pm.group(2), s2)).strip(), 'R2 zip')
+    # R2m: mutable iteration over a word vector: `for (w, y) in X.iter_mut().zip(Y)` / `for (i, w) in X.iter_mut().enumerate()`
+    # -> index loop; in the body `*w op= e;` -> `X.set(idx, X[idx] op (e));`, `*w = e;` -> `X.set(idx, e);`, a bare `y` -> `Y[idx]`
+    m = re.fullmatch(r'(' + PATH + r')\.iter_mut\(\)\.zip\(&?(' + PATH + r')(?:\.iter\(\))?\)', e)
+    if m:
+        s1, s2 = m.group(1), m.group(2)
+        pm = re.fullmatch(r'\(\s*(\w+)\s*,\s*&?\s*(\w+)\s*\)', pat)
+        if not pm:
+            raise ExtractError(f"R2m: unsupported iter_mut().zip pattern {pat!r}")
+        w, y = pm.group(1), pm.group(2)
+        spec['_body_subs'] = [
+            (r'\*' + w + r' (\||&|\^)= !' + y + r';', s1 + '.set(' + idx + ' - 1, ' + s1 + '[' + idx + ' - 1] \\1 !' + s2 + '[' + idx + ' - 1]);'),
+            (r'\*' + w + r' (\||&|\^)= ' + y + r';', s1 + '.set(' + idx + ' - 1, ' + s1 + '[' + idx + ' - 1] \\1 ' + s2 + '[' + idx + ' - 1]);'),
+        ]
+        return (f"let mut {idx}: usize = 0;", f"{idx} < {s1}.len() && {idx} < {s2}.len()", '', 'R2m iter_mut().zip')
+    m = re.fullmatch(r'(' + PATH + r')\.iter_mut\(\)\.enumerate\(\)', e)
+    if m:
+        s1 = m.group(1)
+        pm = re.fullmatch(r'\(\s*(\w+)\s*,\s*(\w+)\s*\)', pat)
+        if not pm:
+            raise ExtractError(f"R2m: unsupported iter_mut().enumerate pattern {pat!r}")
+        iv, w = pm.group(1), pm.group(2)
+        spec['_body_subs'] = [
+            (r'\*' + w + r' (\||&|\^)= ([^;\n]+);', s1 + '.set(' + iv + ', ' + s1 + '[' + iv + '] \\1 (\\2));'),
+            (r'\*' + w + r' = ([^;\n]+);', s1 + '.set(' + iv + ', \\1);'),
+        ]
+        return (f"let mut {idx}: usize = 0;", f"{idx} < {s1}.len()", f"let {iv} = {idx};", 'R2m iter_mut().enumerate')
     m = re.fullmatch(r'\(?([\w.]+)\.\.([\w.()]+)\)?', e)
     if m and not e.endswith('.rev()'):
         a, b = m.group(1), m.group(2)
@@ -607,6 +633,12 @@ def splice_loops(body, loopspecs, log):
             else:
                 idx = spec.get('index') or f"__i{ordinal}"
                 prelude, cond, bindings, rule = rewrite_for_header(pat, expr, idx, spec)
+                for (rx_, rep_) in spec.pop('_body_subs', []):
+                    inner, k_ = re.subn(rx_, rep_, inner)
+                    if k_:
+                        log.append(f"R2m body rewrite /{rx_}/ ({k_}x)")
+                if re.search(r'iter_mut', expr) and re.search(r'(?<![\w.])\*\w+\s*(?:[|&^]?=)', inner):
+                    raise ExtractError(f"R2m: a write through the mutable iterator remains in the loop body of `for {pat} in {expr.strip()}`")
                 log.append(f"{rule}: `for {pat} in {expr.strip()}` -> index loop on `{idx}` (increment at top, so `continue` is preserved)")
                 new = f"{label}while {cond}" + ('\n' + clauses + '\n' + indent if clauses else ' ') + '{'
                 bindings = f"\n{ind2}{bindings}\n{ind2}{idx} += 1;" if bindings else f"\n{ind2}{idx} += 1;"
